@@ -2512,6 +2512,8 @@ class Interp:
             seq = _LazySeq(self, it) if isinstance(it, GenV) else self.concrete_iter(it)
         except _Raised:
             raise _CompRaised()
+        if seq is None and isinstance(it, (Obj, TV)):
+            raise _OpaqueComp(TV(T("comprehension", (_term(it),)), kind="opaque"))
         if seq is None:
             raise Unsupported(f"comprehension over non-concrete iterable at {mi.rel}:{getattr(g.iter, 'lineno', '?')}")
         seq_it = iter(seq)
@@ -2565,6 +2567,9 @@ class Interp:
             self._comp(n.generators, env, mi, emit)
         except _CompRaised:
             return BOTTOM
+        except _OpaqueComp as oc:
+            self.log("havoc-comp", n, value=oc.value)
+            return oc.value
         return out
 
     def e_GeneratorExp(self, n: ast.GeneratorExp, env: Env, mi: ModInfo) -> Any:
@@ -2580,6 +2585,9 @@ class Interp:
             self._comp(n.generators, env, mi, emit)
         except _CompRaised:
             return BOTTOM
+        except _OpaqueComp as oc:
+            self.log("havoc-comp", n, value=oc.value)
+            return oc.value
         return OneShot(out)
 
     def e_SetComp(self, n: ast.SetComp, env: Env, mi: ModInfo) -> Any:
@@ -2588,6 +2596,8 @@ class Interp:
             self._comp(n.generators, env, mi, lambda e, cond=None: out.append(self.eval(n.elt, e, mi)))
         except _CompRaised:
             return BOTTOM
+        except _OpaqueComp as oc:
+            return oc.value
         return make_set(out)
 
     def e_DictComp(self, n: ast.DictComp, env: Env, mi: ModInfo) -> Any:
@@ -2605,6 +2615,9 @@ class Interp:
             self._comp(n.generators, env, mi, emit)
         except _CompRaised:
             return BOTTOM
+        except _OpaqueComp as oc:
+            self.log("havoc-comp", n, value=oc.value)
+            return oc.value
         return out
 
     def e_Call(self, n: ast.Call, env: Env, mi: ModInfo) -> Any:
@@ -2696,6 +2709,13 @@ class Interp:
 
     def _call_super_func(self, f: FuncV, base: ClassV, selfv: Any, args: List[Any], kwargs: Dict[str, Any], node: Any) -> Any:
         return self.call_function(f, [selfv, *args], kwargs, node)
+
+
+class _OpaqueComp(Exception):
+    """A comprehension over a collection held by an external object: its value is uninterpreted."""
+
+    def __init__(self, value: Any):
+        self.value = value
 
 
 class _OpaqueStar(Exception):
